@@ -33,6 +33,7 @@ import (
 	"fmt"
 	"os"
 	"path/filepath"
+	"runtime"
 	"slices"
 	"strconv"
 	"strings"
@@ -739,6 +740,74 @@ func c20engine(out *rec.Out, builder, file string, k int, conc bool, stats map[s
 	stats["cases"]++
 }
 
+// c20engineCtx: k instances of one testdata process created ONE AFTER THE OTHER, each bound to a context of its own that
+// is cancelled as soon as the instance has been started and its ids have been seen (what a server does per request). An
+// instance that is over gives nothing of its identifiers to the ones that follow.
+func c20engineCtx(out *rec.Out, file string, k int, stats map[string]int) {
+	out.Begin("c20", "engine", "ctx", file, k, 0)
+	defer out.End()
+	src, err := os.ReadFile(filepath.Join(c20testdata(), file))
+	if err != nil {
+		out.Line("panic cannot_read_%s", file)
+		return
+	}
+	completed := 0
+	c20guard(out, func() {
+		for i := 0; i < k; i++ {
+			var defs schema.Definitions
+			if err := xml.Unmarshal(src, &defs); err != nil {
+				out.Line("panic xml")
+				return
+			}
+			ctx, cancel := context.WithCancel(context.Background())
+			inst, err := bpmn.NewEngine().NewProcess(&defs, bpmn.WithContext(ctx))
+			if err != nil {
+				cancel()
+				out.Line("panic newprocess:%s", strings.ReplaceAll(err.Error(), " ", "_"))
+				return
+			}
+			out.Line("inst %s", hex.EncodeToString(inst.Id().Bytes()))
+			// every 16th instance also runs (its flows draw ids too)
+			if i%16 == 0 {
+				traces := inst.Tracer().SubscribeChannel(make(chan tracing.ITrace, 256))
+				if err := inst.StartAll(ctx); err == nil {
+					deadline := time.After(time.Second)
+				loop:
+					for {
+						select {
+						case tr, ok := <-traces:
+							if !ok {
+								break loop
+							}
+							switch t := tracing.Unwrap(tr).(type) {
+							case bpmn.NewFlowTrace:
+								out.Line("flow %s", hex.EncodeToString(t.FlowId.Bytes()))
+							case bpmn.TaskTrace:
+								t.Do()
+							case bpmn.CeaseFlowTrace:
+								completed++
+								break loop
+							}
+						case <-deadline:
+							break loop
+						}
+					}
+				}
+				go inst.Tracer().Unsubscribe(traces)
+			}
+			cancel()
+			// (whatever the library hangs on the end of the context gets its turn)
+			runtime.Gosched()
+			if i%64 == 63 {
+				time.Sleep(200 * time.Microsecond)
+			}
+		}
+	})
+	out.Line("run 0 done %d traces 0", rec.B(completed > 0))
+	stats["cases"]++
+	stats["engine_instances_with_own_cancelled_context"] += k
+}
+
 // ---------------------------------------------------------------- the family
 
 func c20(out *rec.Out, rng *rec.Rng, tier string, stats map[string]int) {
@@ -806,6 +875,11 @@ func c20(out *rec.Out, rng *rec.Rng, tier string, stats map[string]int) {
 			c20engine(out, b, f, k, b != "sno" || thorough, stats)
 		}
 	}
+	kc := 1500
+	if thorough {
+		kc = 6000
+	}
+	c20engineCtx(out, "task.bpmn", kc, stats)
 	// 6. LAST (it uses up the process-wide sno partition pool): one long-lived generator and, one after the other, a
 	// little more than 2^16 short-lived ones (one generator per process instance in a long-running program)
 	c20manyGens(out, 1<<16+16, stats)
